@@ -168,9 +168,23 @@ class CConv:
             cond = self.expr(inner[2]) if inner[2].get("kind") else None
             post = self.stmts(inner[3]) if inner[3].get("kind") else []
             body = N("block", line, stmts=self.stmts(inner[4]))
-            return [N("for", line, init=init[0] if init else None, cond=cond, post=post[0] if post else None, body=body)]
+            post_n = None if not post else (post[0] if len(post) == 1 else N("block", line, stmts=post))
+            return [N("for", line, init=init[0] if init else None, cond=cond, post=post_n, body=body)]
         if k == "WhileStmt":
             return [N("for", line, init=None, cond=self.expr(inner[0]), post=None, body=N("block", line, stmts=self.stmts(inner[1])))]
+        if k == "DoStmt" and len(inner) == 2:
+            # the statement-macro idiom `do { ... } while (0)`: the body, once
+            cond_n = inner[1]
+            while cond_n.get("kind") in ("ImplicitCastExpr", "ParenExpr") and cond_n.get("inner"):
+                cond_n = cond_n["inner"][0]
+            def _has_jump(nd: Dict[str, Any]) -> bool:
+                if nd.get("kind") in ("BreakStmt", "ContinueStmt"):
+                    return True
+                if nd.get("kind") in ("ForStmt", "WhileStmt", "DoStmt", "SwitchStmt"):
+                    return False
+                return any(_has_jump(c_) for c_ in nd.get("inner", []) if isinstance(c_, dict))
+            if cond_n.get("kind") == "IntegerLiteral" and cond_n.get("value") == "0" and not _has_jump(inner[0]):
+                return [N("block", line, stmts=self.stmts(inner[0]))]
         if k == "ReturnStmt":
             return [N("return", line, vals=[self.expr(inner[0])] if inner else [])]
         if k == "BreakStmt":
@@ -225,6 +239,12 @@ class CConv:
             flush()
             return [N("switch", line, tag=tag, cases=cases)]
         # expression statements
+        nn = n
+        while nn.get("kind") == "ParenExpr" and nn.get("inner"):
+            nn = nn["inner"][0]
+        if nn.get("kind") == "BinaryOperator" and nn.get("opcode") == "," and len(nn.get("inner", [])) == 2:
+            # a, b as a statement (the increment part of a for loop): a; b
+            return self.stmts(nn["inner"][0]) + self.stmts(nn["inner"][1])
         e = self.expr(n)
         if e.k == "bin" and e.op in ("=", "+=", "-=", "|=", "&=", "<<=", ">>=", "*=", "/=", "%=", "^="):
             return [N("assign", line, lhs=[e.l], op=e.op, rhs=[e.r])]
